@@ -83,6 +83,8 @@ def gen_case(rng, tier, diff=False):
     c = {"size": size, "block_size": bs, "sector_size": ss, "blocks": blocks, "bat_offset": bat_off,
          "file_size": top * MB, "place": place, "mode": mode, "inter": inter, "salt": rng.randrange(1 << 30),
          "kind": "nodiff", "header_seq": rng.pick([[5, 7], [9, 3], [4, 4]])}
+    # LeaveBlockAllocated (a "fixed" VHDX): a hint for writers; the BAT still decides where every block lies
+    c["leave_alloc"] = (c["salt"] % 3) == 0
     c["reqs"] = gen_requests(rng, size, bs, n=6, sector=ss, raw_align=ss, max_bytes=2_000_000,
                              big=(20 * MB if (bs >= 32 * MB and rng.chance(0.4)) else 0))
     if inter:
